@@ -91,7 +91,7 @@ struct Explorer {
         }
         if (orc.c13) {   // exercise print / save / load / destroy on every distinct state; the sanitizer is the oracle
             guarded([&] { silencedPrint(*w.c); });
-            if (uniformFrames(s.o)) { std::string p = w.path("c13.c3d"); Outcome oc = guarded([&] { w.c->write(p); }); if (oc == OK) guarded([&] { C3D l(p); silencedPrint(l); }); }
+            if (uniformFrames(s.o)) { std::string p = w.path("c13.c3d"); freshDestination(p); Outcome oc = guarded([&] { w.c->write(p); }); if (oc == OK) guarded([&] { C3D l(p); silencedPrint(l); }); }
         }
     }
     void transitionOracles(const WSnap& pre, const CallInfo& ci, Outcome oc, const WSnap& post, World& w, const Op& op, Sink& sink, Stats& st) const {
